@@ -55,6 +55,16 @@ impl Formatter for EmptyLineRemover {
             return (byte_pos, byte_pos);
         }
 
+        // The line holding the deletion position must itself be empty up to that position:
+        // a position at the end of a line of code is not an empty line.
+        let is_current_line_empty = find_prev_line_break_pos(content, bytes, byte_pos, true)
+            .is_some()
+            || bytes[..byte_pos].iter().all(|&b| b == b' ' || b == b'\t');
+
+        if !is_current_line_empty {
+            return (byte_pos, byte_pos);
+        }
+
         let is_not_next_line_empty = find_next_line_break_pos(content, bytes, byte_pos, true)
             .and_then(|pos| find_next_line_break_pos(content, bytes, pos + 1, true))
             .is_none();
